@@ -13,11 +13,22 @@ package resolver
 //@
 //@ func (*Resolver).processDelegation
 //@   abstract
-//@   nosafety all
+//@   nosafety all pre
 //@   assert at store resolver.resolveState.work#1: value == rs.work
 //@   assert at store resolver.resolveState.depth#1: value == rs.depth
 //@   assert at store resolver.resolveState.depth#2: rs.depth > -9223372036854775808 ==> value < rs.depth
 //@   assert at call (*middleware/resolver.Resolver).resolve#3: arg2 == rs && rs.depth > 0
+//@   note C08: the lease is anchored at ONE clock reading taken before validation; it is at most that instant plus the referral's minimum NS TTL, and (when a DS is retained) plus the DS set's minimum TTL; the stored deadline is the minimum of that lease and the inherited ancestor cut; it reaches the delegation cache, the provisional NS-lookup entry and the answer-cache sink verbatim
+//@   assert at call middleware/resolver.minCut#1: arg0 == rs.cutDeadline && arg1 == rs.cutKey && arg3 == key
+//@   assert at call middleware/resolver.minCut#1: nsInfo.nsTTL <= 2147483647 ==> inst(arg2) <= inst(lastret("time.Now")) + int64(nsInfo.nsTTL) * 1000000000
+//@   assert at call middleware/resolver.minCut#1: len(rs.parentDS) > 0 && lastret("middleware/resolver.minRRSetTTL") <= 2147483647 ==> inst(arg2) <= inst(lastret("time.Now")) + int64(lastret("middleware/resolver.minRRSetTTL")) * 1000000000
+//@   assert at call middleware/resolver.minCut#1: calls("time.Now") == 1
+//@   assert at call middleware/resolver.minRRSetTTL#1: arg0 == rs.parentDS
+//@   assert at call middleware/resolver.noteCut#1: arg1 == lastret("middleware/resolver.minCut") && arg2 == lastret("middleware/resolver.minCut", 1)
+//@   assert at call (*internal/authority.Cache).SetUntil#1: arg1 == key && arg4 == lastret("middleware/resolver.minCut")
+//@   assert at call (*middleware/resolver.Resolver).lookupV4Nss#1: arg4 == key && arg9 == lastret("middleware/resolver.minCut")
+//@   assert at store resolver.resolveState.cutDeadline#1: value == lastret("middleware/resolver.minCut")
+//@   assert at store resolver.resolveState.cutDeadline#2: value == lastret("middleware/resolver.minCut")
 //@   note C07: nothing from a referral is used (glue, NS-address lookups, cached descent, delegation cache) unless validReferral accepted it
 //@   assert at call (*middleware/resolver.Resolver).checkGlueRR#1: lastret("middleware/resolver.validReferral")
 //@   assert at call (*middleware/resolver.Resolver).lookupV4Nss#1: lastret("middleware/resolver.validReferral")
@@ -27,21 +38,28 @@ package resolver
 //@
 //@ func (*Resolver).resolveWithCachedNameservers
 //@   abstract
-//@   nosafety all
+//@   nosafety all pre
+//@   note C08: a cached descent keeps the shorter of the cached entry's deadline and the cut carried so far
+//@   assert at call middleware/resolver.minCut#1: arg0 == rs.cutDeadline && arg1 == rs.cutKey && arg2 == cached.ExpiresAt && arg3 == key
+//@   assert at store resolver.resolveState.cutDeadline#1: value == lastret("middleware/resolver.minCut")
+//@   assert at call middleware/resolver.noteCut#1: arg1 == rs.cutDeadline && arg2 == rs.cutKey
 //@   assert at store resolver.resolveState.depth#1: rs.depth > -9223372036854775808 + 10 ==> value < rs.depth
 //@   assert at store resolver.resolveState.depth#2: rs.depth > -9223372036854775808 ==> value < rs.depth
 //@   assert at call (*middleware/resolver.Resolver).resolve#1: arg2 == rs && rs.depth > 0
 //@
 //@ func (*Resolver).Resolve
 //@   abstract
-//@   nosafety all
+//@   nosafety all pre
 //@   assert at store resolver.resolveState.depth#1: value == depth
 //@   assert at store resolver.resolveState.work#1: value != nil ==> calls("(*middleware.RecursionWorkLedger).EnforcementError") == 1
 //@
 //@ func (*Resolver).subQuery
 //@   abstract
-//@   nosafety all
+//@   nosafety all pre
 //@   assert at call (*middleware/resolver.Resolver).resolve#1: calls("middleware.DebitRecursionWork") == 1
+//@   note C08: what a sub-query stores in the answer cache is bounded by the cut its own resolution walked
+//@   assert at call (middleware.CutStore).SetFromResponseWithCut#1: arg1 == resp && (lastret("middleware.ResponseMetaFrom") != nil ==> arg3 == lastret("(*middleware.ResponseMeta).Cut") && arg4 == lastret("(*middleware.ResponseMeta).Cut", 1)) && (lastret("middleware.ResponseMetaFrom") == nil ==> tzero(arg3))
+//@   assert at call (middleware.Store).SetFromResponse#1: arg1 == resp && (lastret("middleware.ResponseMetaFrom") != nil ==> arg3 == lastret("(*middleware.ResponseMeta).Cut")) && (lastret("middleware.ResponseMetaFrom") == nil ==> tzero(arg3))
 //@
 //@ # every transport attempt (dial or exchange) is preceded by a debit of the request tree's ledger
 //@ func (*Resolver).exchange
@@ -98,3 +116,31 @@ package resolver
 //@ func (*Resolver).filterAuthorityRecords
 //@   loop 1 invariant forall j int :: {filtered[j]} 0 <= j && j < len(filtered) ==> dyntype(filtered[j], *dns.SOA) || dyntype(filtered[j], *dns.NSEC) || dyntype(filtered[j], *dns.NSEC3) || dyntype(filtered[j], *dns.RRSIG)
 //@   ensures forall j int :: {result[j]} 0 <= j && j < len(result) ==> dyntype(result[j], *dns.SOA) || dyntype(result[j], *dns.NSEC) || dyntype(result[j], *dns.NSEC3) || dyntype(result[j], *dns.RRSIG)
+//@
+//@ # ---- C08: cut arithmetic. A zero time means "unbounded" and never wins; otherwise the earlier deadline wins
+//@ func minNonZero
+//@   modifies nothing
+//@   ensures tzero(a) ==> result == b
+//@   ensures !tzero(a) && tzero(b) ==> result == a
+//@   ensures !tzero(a) && !tzero(b) ==> inst(result) == min(inst(a), inst(b)) && (result == a || result == b)
+//@
+//@ func minCut
+//@   modifies nothing
+//@   ensures tzero(a) ==> result0 == b && result1 == bKey
+//@   ensures !tzero(a) && tzero(b) ==> result0 == a && result1 == aKey
+//@   ensures !tzero(a) && !tzero(b) && inst(b) < inst(a) ==> result0 == b && result1 == bKey
+//@   ensures !tzero(a) && !tzero(b) && !(inst(b) < inst(a)) ==> result0 == a && result1 == aKey
+//@
+//@ func minRRSetTTL
+//@   requires rrWF(rrs)
+//@   modifies nothing
+//@   loop 1 invariant (rangeidx == 0 ==> m == 0) && forall j int :: {rrs[j]} 0 <= j && j < rangeidx ==> m <= hdrOf(rrs[j]).Ttl
+//@   ensures forall j int :: {rrs[j]} 0 <= j && j < len(rrs) ==> result <= hdrOf(rrs[j]).Ttl
+//@   ensures len(rrs) == 0 ==> result == 0
+//@
+//@ # the provisional delegation entry written while NS addresses are still being looked up is bounded by the cut and by one minute
+//@ func (*Resolver).lookupV4Nss
+//@   abstract
+//@   nosafety all pre
+//@   assert at call (*internal/authority.Cache).SetUntil#1: arg1 == key && arg4 == lastret("middleware/resolver.minNonZero")
+//@   assert at call middleware/resolver.minNonZero#1: arg0 == cutDeadline && inst(arg1) <= inst(lastret("time.Now")) + 60000000000
